@@ -22,7 +22,7 @@ CASE_TIMEOUT = {'quick': 25, 'thorough': 120}
 def floors(tier):
     return {'distinct_nontrivial': 1000 if tier == 'quick' else 80000, 'inverse_returned': 700, 'two_sided_checked': 700,
             'singular_operands_seen': 40, 'zerodivision_checked_against_oracle': 40, 'division_checked': 300,
-            'number_over_x_checked': 150, 'negative_power_checked': 150, 'd5_closed_form_cases': 40, 'd6plus_iterative_cases': 30,
+            'number_over_x_checked': 150, 'negative_power_checked': 150, 'd5_closed_form_cases': 40, 'd6plus_iterative_cases': 100, 'd6plus_degenerate_r2_cases': 60,
             'padded_or_permuted_layouts': 300, 'empty_dividends': 60}
 
 
@@ -41,8 +41,12 @@ def plan(tier, seed):
             U += u(c, 30, 8)
         for c in rng.sample(gen.pqr_all(5, 5), 8):
             U += u(c, 25, 4)
-        for c in rng.sample(gen.pqr_all(6, 6), 5):
+        for c in rng.sample(gen.pqr_all(6, 6), 3):
             U += u(c, 12, 3)
+        # the iterative (d >= 6) scheme in degenerate algebras, where fewer powers are independent
+        for c in ({'p': 4, 'q': 0, 'r': 2}, {'p': 2, 'q': 2, 'r': 2}, {'p': 1, 'q': 0, 'r': 5}, {'p': 0, 'q': 0, 'r': 6}, {'p': 3, 'q': 0, 'r': 3},
+                  {'signature': [0, 1, 0, -1, 1, 0]}):
+            U += u(c, 40, 4)
         for c in rng.sample(gen.pqr_all(7, 7), 3):
             U += u(c, 4, 3)
         for _ in range(8):
@@ -61,6 +65,8 @@ def plan(tier, seed):
             U += u(c, 400, 4)
         for c in gen.pqr_all(6, 6)[::2]:
             U += u(c, 120, 3)
+        for c in [c for c in gen.pqr_all(6, 6) if c['r'] >= 2] + [{'signature': gen.random_sig(rng, 6)} for _ in range(10)]:
+            U += u(c, 150, 4)
         for c in rng.sample(gen.pqr_all(7, 7), 16):
             U += u(c, 12, 3)
         for _ in range(300):
@@ -149,6 +155,8 @@ def one_operand(ctx, alg, iso, cfg, name, canon, unit):
         ctx.count('d5_closed_form_cases')
     if d >= 6:
         ctx.count('d6plus_iterative_cases')
+        if alg.r >= 2:
+            ctx.count('d6plus_degenerate_r2_cases')
     wit = dict(config=cfg, keys=list(keys), values=[str(vals[k]) for k in keys], layout=layout)
     if st == 'exc':
         ctx.note_raised(xi, 'inv')
